@@ -27,6 +27,8 @@ def worktree(name):
 
 
 def drop(wt):
+    # a check run against a scratch tree regenerates lean/QGen and lean/QAudit from it: put the committed files back
+    sh(["git", "-C", VERIF, "checkout", "--", "lean/QGen", "lean/QAudit", "evidence"])
     sh(["git", "-C", "/repo", "worktree", "remove", "--force", wt])
     shutil.rmtree(wt, ignore_errors=True)
     sh(["git", "-C", "/repo", "worktree", "prune"])
